@@ -993,3 +993,31 @@ def corr_realpath(rng, specs, ncases=150, nproc=8):
             nontriv += 1
     return result(len(reqs), nontriv, dis, [{k: (repr(v)[:200] if k in ('include', 'exclude', 'tree') else v) for k, v in me.items()} for me in meta[:2]],
                   {'pattern_source': dict(kinds), 'accepted': nontriv, 'rejected': len(reqs) - nontriv, 'rejected_because_of_a_link': link_sensitive})
+
+
+# ----------------------------------------------------------------------------------------------
+# _wcparse._get_win_drive vs WinDrive.get_win_drive (+ drive_regex / drive_plain)
+# ----------------------------------------------------------------------------------------------
+
+def corr_windrive(patterns, nproc=8):
+    import_impl()
+    from wcmatch import _wcparse as W
+    m = Model()
+    dis = []
+    evals = 0
+    kinds = collections.Counter()
+    opt = lambda t: 'N' if t is None else 'S' + enc(t)
+    for cs in (0, 1):
+        outs = m.run(['windrive %d %s' % (cs, enc(p)) for p in patterns], nproc=nproc)
+        for p, o in zip(patterns, outs):
+            try:
+                rs, dr, sl, e = W._get_win_drive(p, True, bool(cs))
+                rs2, dp, sl2, e2 = W._get_win_drive(p, False, bool(cs))
+                exp = '%d|%s|%s|%d|%d' % (rs, opt(dr), opt(dp), sl, e) if (rs, sl, e) == (rs2, sl2, e2) else 'MODES-DIFFER'
+            except Exception as ex:
+                exp = 'EXC ' + type(ex).__name__
+            evals += 1
+            kinds['drive' if dr is not None else ('root' if rs else 'relative')] += 1
+            if o != exp:
+                dis.append({'kind': 'windrive', 'pattern': p, 'case_sensitive': bool(cs), 'impl': exp, 'model': o})
+    return result(evals, kinds['drive'], dis, [{'pattern': patterns[len(patterns) // 2]}] if patterns else [], {'shapes': dict(kinds)})
